@@ -97,7 +97,8 @@ Supported(p, t) ==
   /\ ~HasBad(t)
   /\ CASE p = "gostring" -> ~HasExtPrivate(t)    \* C06: types with exported fields
        [] p \in ScalarPlugins -> TRUE
-       [] p \in {"sort", "min", "max"} -> ~Unordered(t)            \* over []T, ordered by < or derived Compare
+       [] p = "sort" -> ~Unordered(t)        \* over []T, ordered by < or derived Compare
+       [] p \in {"min", "max"} -> TRUE        \* bool and complex go through derived Compare            \* over []T, ordered by < or derived Compare
        [] p \in {"contains", "unique", "union", "intersect"} -> TRUE                       \* over []T
        [] p = "set" -> Comparable(t)                                                         \* []T -> map[T]struct{}
        [] p = "keys" -> t \in KeyTypes                                                       \* map[T]int
